@@ -69,6 +69,9 @@ Definition open_set (w : world) (C : nat -> entry) : str :=
 Definition put (w : world) (C : nat -> entry) (n : nat) (s : str) : world :=
   match C n with Some id => fst (k_write w id s) | None => w end.
 
+(** NUL bytes cannot pass through the probe's command substitution: it maps them to '@' *)
+Definition nul_to_at (c : char) : char := if N.eqb c 0 then 64%N else c.
+
 (** The external probe (harness script `fdprobe TAG`): lists which of 0..9 are open; if 0 is
     open for reading reads it to the end and reports the data on 1; then writes one line
     "TAG:n:SET" to every descriptor n in 0..9 that is open for writing, in ascending order. *)
@@ -79,7 +82,7 @@ Definition probe (w : world) (C : nat -> entry) (tag : str) : world :=
                      | None => (w, None)
                      end in
   let w2 := match data with
-            | Some s => put w1 C 1%nat (tag ++ [60%N] ++ s ++ [62%N; NL])
+            | Some s => put w1 C 1%nat (tag ++ [60%N] ++ map nul_to_at s ++ [62%N; NL])
             | None => w1
             end in
   fold_left (fun w n => put w C n (tag ++ [58%N; digit n; 58%N] ++ set ++ [NL])) fds10 w2.
